@@ -103,7 +103,7 @@ def run(ctx):
         pairs.append((a, b))
     # dedicated stream: two records with the same name and length that differ in residues, inside a family with low-complexity repeats (so
     # that equally good gap placements exist); the respelling touches exactly the first position where the two differ (case, or T<->U)
-    for j in range(40 if ctx.quick else 400):
+    for j in range(160 if ctx.quick else 800):
         kind = rng.choice(["dna", "rna"])
         Tq = "U" if kind == "rna" else "T"
         unit = "".join(rng.choice("ACG" + Tq) for _ in range(rng.choice([1, 2, 3])))
